@@ -894,7 +894,7 @@ Qed.
 
 Theorem c07_ugrid_writable_refuted :
   exists ds, c07_ds_wfb ds = true /\
-    c07_writable (uo_ds (c07_encode_ugrid c07_faithful c07_base_template ds)) = false.
+    c07_writable (uo_ds (c07_encode_ugrid c07_before_fixes c07_base_template ds)) = false.
 Proof. exists c07_ex_edges. split; vm_compute; reflexivity. Qed.
 
 Example c07_ugrid_writable_nonvacuous :
@@ -1225,8 +1225,8 @@ Proof.
 Qed.
 
 Example c07_exodus_faithful_roundtrip_nonvacuous :
-  exists b, c07_exo_connect c07_faithful 4 [[0; 1; 2; 3]; [2; 3; 4; FILL]] = Some [b]
-            /\ c07_read_exodus_conn c07_faithful [b] = [[0; 1; 2; 3]; [2; 3; 4; FILL]].
+  exists b, c07_exo_connect c07_before_fixes 4 [[0; 1; 2; 3]; [2; 3; 4; FILL]] = Some [b]
+            /\ c07_read_exodus_conn c07_before_fixes [b] = [[0; 1; 2; 3]; [2; 3; 4; FILL]].
 Proof. eexists. split; vm_compute; reflexivity. Qed.
 
 (* ... and raises (KeyError in ELEMENT_TYPE_DICT) as soon as the table is wider than 8 columns,
@@ -1234,7 +1234,7 @@ Proof. eexists. split; vm_compute; reflexivity. Qed.
 Theorem c07_exodus_width_refuted :
   exists nmax t, std_tableb nmax t = true /\ t <> [] /\
     Forall (fun r => (3 <= length (corners r) <= 8)%nat) t /\
-    c07_exo_connect c07_faithful nmax t = None.
+    c07_exo_connect c07_before_fixes nmax t = None.
 Proof.
   exists 9%nat, [[0; 1; 2; FILL; FILL; FILL; FILL; FILL; FILL]].
   split; [vm_compute; reflexivity|]. split; [discriminate|].
@@ -1466,7 +1466,7 @@ Qed.
 
 Example c07_run_ugrid_faithful_nonvacuous :
   c07_dispatch false c07_ex_ugrid = Some C07_UGRID /\ c07_ds_wfb c07_ex_small = true.
-Proof. split; vm_compute; reflexivity. Qed.
+Proof. repeat split; vm_compute; reflexivity. Qed.
 
 
 (* ------------------------------------------------------------------------------------- *)
@@ -1507,8 +1507,9 @@ Qed.
 
 Example c07_ugrid_writable_stripped_nonvacuous :
   c07_writable (uo_ds (c07_encode_ugrid c07_repaired c07_base_template c07_ex_edges)) = true
-  /\ c07_writable (uo_ds (c07_encode_ugrid c07_faithful c07_base_template c07_ex_edges)) = false.
-Proof. split; vm_compute; reflexivity. Qed.
+  /\ c07_writable (uo_ds (c07_encode_ugrid c07_faithful c07_base_template c07_ex_edges)) = true
+  /\ c07_writable (uo_ds (c07_encode_ugrid c07_before_fixes c07_base_template c07_ex_edges)) = false.
+Proof. repeat split; vm_compute; reflexivity. Qed.
 
 (* ------------------------------------------------------------------------------------- *)
 (* a Cartesian-only grid (node_x/y/z, node_lon never materialised): the topology names
@@ -1530,3 +1531,11 @@ Proof.
   exists c07_ex_cartesian. repeat split; try (vm_compute; reflexivity).
   eexists. vm_compute. reflexivity.
 Qed.
+
+(* the code as it is strips the helpers: writable whenever they are the only unstorable attributes *)
+Corollary c07_ugrid_writable_faithful tmpl ds :
+  c07_tmpl_ok tmpl ->
+  (forall v kv, In v ds -> In kv (cv_attrs v) -> c07_netcdf_ok (snd kv) = false ->
+                c07_is_helper (cv_name v) (fst kv) = true) ->
+  c07_writable (uo_ds (c07_encode_ugrid c07_faithful tmpl ds)) = true.
+Proof. apply c07_ugrid_writable_stripped. reflexivity. Qed.
